@@ -459,3 +459,203 @@ func valuesAreRangeKeys(m ssa.Value, mapProv string, depth int) bool {
 	}
 	return any
 }
+
+// ---- C14: side conditions of the trusted encoding/json contract ----
+//
+// The C14 contracts treat json.Marshal followed by json.Unmarshal as the identity on the intermediate wire structs
+// (DESIGN.md section 3, T3). That is a property of encoding/json only for structs whose fields are all exported, carry
+// distinct JSON names, and have no tag option that drops or rewrites a value (`-`, omitempty, omitzero, string).
+// These obligations check exactly that for every struct type that reaches json.Marshal / json.Unmarshal in the codec
+// package, so the assumption is not silently invalidated by a tag. omitempty is admitted on json.RawMessage fields only
+// (an empty RawMessage is not valid JSON and cannot be marshalled, so omitting it loses nothing).
+func (e *Engine) c14Obligations(prop string) []*Obl {
+	props := []string{prop}
+	var out []*Obl
+	pkgPath := e.modPath + "/tm/tmcodec/tmjson"
+	sp := e.ssaPkgs[pkgPath]
+	if sp == nil {
+		return []*Obl{structObl("tmjson/json-wire-structs/exists", props, "", false, "codec package is loaded", pkgPath+" not loaded")}
+	}
+	// roots: operand types of json.Marshal(v) and json.Unmarshal(b, &v) in the package's functions and methods
+	seen := map[string]bool{}
+	var order []*types.Named
+	var visit func(t types.Type)
+	visit = func(t types.Type) {
+		switch x := t.(type) {
+		case *types.Pointer:
+			visit(x.Elem())
+		case *types.Slice:
+			visit(x.Elem())
+		case *types.Array:
+			visit(x.Elem())
+		case *types.Map:
+			visit(x.Elem())
+		case *types.Named:
+			st, ok := x.Underlying().(*types.Struct)
+			if !ok {
+				if _, isBasic := x.Underlying().(*types.Basic); !isBasic {
+					visit(x.Underlying())
+				}
+				return
+			}
+			key := x.String()
+			if seen[key] {
+				return
+			}
+			seen[key] = true
+			order = append(order, x)
+			for i := 0; i < st.NumFields(); i++ {
+				visit(st.Field(i).Type())
+			}
+		}
+	}
+	nRoots := 0
+	var fns []*ssa.Function
+	for _, m := range sp.Members {
+		switch x := m.(type) {
+		case *ssa.Function:
+			fns = append(fns, x)
+		case *ssa.Type:
+			for _, recv := range []types.Type{x.Type(), types.NewPointer(x.Type())} {
+				ms := e.prog.MethodSets.MethodSet(recv)
+				for i := 0; i < ms.Len(); i++ {
+					if f := e.prog.MethodValue(ms.At(i)); f != nil && f.Pkg == sp {
+						fns = append(fns, f)
+					}
+				}
+			}
+		}
+	}
+	for _, fn := range fns {
+		for _, b := range fn.Blocks {
+			for _, in := range b.Instrs {
+				c, ok := in.(*ssa.Call)
+				if !ok {
+					continue
+				}
+				callee := c.Call.StaticCallee()
+				if callee == nil {
+					continue
+				}
+				ai := -1
+				switch callee.String() {
+				case "encoding/json.Marshal":
+					ai = 0
+				case "encoding/json.Unmarshal":
+					ai = 1
+				}
+				if ai < 0 {
+					continue
+				}
+				if mi, ok := c.Call.Args[ai].(*ssa.MakeInterface); ok {
+					nRoots++
+					visit(mi.X.Type())
+				}
+			}
+		}
+	}
+	out = append(out, structObl("tmjson/json-wire-structs/found", props, "", nRoots > 0 && len(order) > 0,
+		"the codec passes struct values to encoding/json", fmt.Sprintf("%d json.Marshal/Unmarshal operands, %d struct types", nRoots, len(order))))
+	sort.Slice(order, func(i, j int) bool { return order[i].String() < order[j].String() })
+	rawMsg := "encoding/json.RawMessage"
+	for _, nt := range order {
+		st := nt.Underlying().(*types.Struct)
+		short := nt.Obj().Pkg().Name() + "." + nt.Obj().Name()
+		pos := posStr(e.fset, nt.Obj().Pos())
+		// a type with its own MarshalJSON/UnmarshalJSON is outside the identity assumption: say so
+		custom := false
+		for _, recv := range []types.Type{nt, types.NewPointer(nt)} {
+			ms := types.NewMethodSet(recv)
+			for i := 0; i < ms.Len(); i++ {
+				if n := ms.At(i).Obj().Name(); n == "MarshalJSON" || n == "UnmarshalJSON" || n == "MarshalText" || n == "UnmarshalText" {
+					custom = true
+				}
+			}
+		}
+		out = append(out, structObl("tmjson/json-wire-struct "+short+"/default-encoding", props, pos, !custom,
+			"the wire struct uses encoding/json's default struct encoding (no custom marshaller)", short+" defines its own JSON/text marshalling"))
+		names := map[string]string{}
+		for i := 0; i < st.NumFields(); i++ {
+			f := st.Field(i)
+			tag := reflectTagGet(st.Tag(i), "json")
+			name, opts := tag, ""
+			if j := strings.Index(tag, ","); j >= 0 {
+				name, opts = tag[:j], tag[j+1:]
+			}
+			fname := short + "." + f.Name()
+			okExp := f.Exported() && !f.Embedded()
+			out = append(out, structObl("tmjson/json-wire-struct "+fname+"/exported", props, pos, okExp,
+				"the field is exported and named (unexported or embedded fields are not carried as written)", fname+" is unexported or embedded"))
+			okTag := name != "-" || opts != ""
+			detail := ""
+			for _, o := range strings.Split(opts, ",") {
+				switch o {
+				case "":
+				case "omitempty", "omitzero":
+					if f.Type().String() != rawMsg {
+						okTag = false
+						detail = "option " + o + " drops empty values: an empty non-nil value decodes as nil/absent"
+					}
+				default:
+					okTag = false
+					detail = "option " + o + " rewrites the value"
+				}
+			}
+			if name == "-" && opts == "" {
+				detail = "tag \"-\" drops the field"
+			}
+			out = append(out, structObl("tmjson/json-wire-struct "+fname+"/tag-keeps-the-value", props, pos, okTag,
+				"no JSON tag option drops or rewrites the field's value (nil/empty/zero values survive the round trip)", fname+": "+detail))
+			jn := name
+			if jn == "" {
+				jn = f.Name()
+			}
+			lower := strings.ToLower(jn)
+			prev, dup := names[lower]
+			out = append(out, structObl("tmjson/json-wire-struct "+fname+"/distinct-json-name", props, pos, !dup,
+				"JSON names are distinct within the struct (case-insensitively, as the decoder matches them)", fname+" and "+prev+" share the JSON name "+jn))
+			names[lower] = fname
+		}
+	}
+	return out
+}
+
+// reflectTagGet is reflect.StructTag.Get without importing reflect's conventions differently: conventional key:"value" pairs.
+func reflectTagGet(tag, key string) string {
+	for tag != "" {
+		i := 0
+		for i < len(tag) && tag[i] == ' ' {
+			i++
+		}
+		tag = tag[i:]
+		if tag == "" {
+			break
+		}
+		i = 0
+		for i < len(tag) && tag[i] > ' ' && tag[i] != ':' && tag[i] != '"' && tag[i] != 0x7f {
+			i++
+		}
+		if i == 0 || i+1 >= len(tag) || tag[i] != ':' || tag[i+1] != '"' {
+			break
+		}
+		name := tag[:i]
+		tag = tag[i+1:]
+		i = 1
+		for i < len(tag) && tag[i] != '"' {
+			if tag[i] == '\\' {
+				i++
+			}
+			i++
+		}
+		if i >= len(tag) {
+			break
+		}
+		qvalue := tag[:i+1]
+		tag = tag[i+1:]
+		if key == name {
+			v := qvalue[1 : len(qvalue)-1]
+			return strings.ReplaceAll(v, `\"`, `"`)
+		}
+	}
+	return ""
+}
